@@ -147,12 +147,32 @@ func genStep(r *rand.Rand, fss []fsChoice) recStep {
 	case k < 90:
 		idx := r.Intn(12)
 		return recStep{map[string]any{"op": "getf", "k": idx}, fmt.Sprintf("rd($(%d))", idx) + x1, nil}
+	case k < 91 && r.Intn(3) == 0:
+		// sub / gsub on a field or on $0: an assignment iff something was replaced
+		idx := r.Intn(6)
+		rx := []re{lit('b'), star(lit('x')), cat(lit('a'), opt(lit(' '))), lit(','), plus(cls(',', ':'))}[r.Intn(5)]
+		rp := [][]byte{[]byte("&"), []byte("q"), {}, []byte("&,&"), []byte("x y")}[r.Intn(5)]
+		gl := r.Intn(2) == 0
+		f := "sub"
+		if gl {
+			f = "gsub"
+		}
+		return recStep{map[string]any{"op": "subf", "k": idx, "gl": gl, "re": rx, "rp": hx.FromBytes(rp), "text": hx.FromBytes([]byte(renderRe(rx)))},
+			fmt.Sprintf("rd(%s(/%s/, %s, $(%d)))", f, renderRe(rx), hx.AwkString(rp), idx) + x1, nil}
+	case k < 92 && r.Intn(2) == 0:
+		idx := r.Intn(6)
+		s := randText(r, 8, false)
+		return recStep{map[string]any{"op": "getlinef", "k": idx, "s": hx.FromBytes(s)}, fmt.Sprintf("getline $(%d)", idx) + x1, append(append([]byte{}, s...), '\n')}
 	case k < 93:
 		idx := -(1 + r.Intn(3))
 		return recStep{map[string]any{"op": "getf", "k": idx},
 			fmt.Sprintf("if (NF >= %d) { rd($(%d))%s } else printf \"X0\\n\"", -idx, idx, x1), nil}
 	case k < 96:
 		return recStep{map[string]any{"op": "getnf"}, "rd(NF)" + x1, nil}
+	case k >= 98:
+		idx := 1 + r.Intn(4)
+		return recStep{map[string]any{"op": "augf", "k": idx, "d": 2},
+			fmt.Sprintf("if ($(%d) ~ /^[12][12]?$/ || $(%d) ~ /^[abx,:]*$/) { $(%d) += 2%s } else printf \"X0\\n\"", idx, idx, idx, x1), nil}
 	default:
 		idx := 1 + r.Intn(4)
 		return recStep{map[string]any{"op": "incr", "k": idx},
